@@ -534,7 +534,7 @@ func (m *Variant) String() string {
 
 // Bool returns the boolean value if the type is Boolean.
 func (m *Variant) Bool() bool {
-	if m.ArrayLength() > 0 {
+	if m.Has(VariantArrayValues) {
 		return false
 	}
 
@@ -548,7 +548,7 @@ func (m *Variant) Bool() bool {
 
 // Float returns the float value if the type is one of the float types.
 func (m *Variant) Float() float64 {
-	if m.ArrayLength() > 0 {
+	if m.Has(VariantArrayValues) {
 		return 0
 	}
 
@@ -564,7 +564,7 @@ func (m *Variant) Float() float64 {
 
 // Int returns the int value if the type is one of the int types.
 func (m *Variant) Int() int64 {
-	if m.ArrayLength() > 0 {
+	if m.Has(VariantArrayValues) {
 		return 0
 	}
 
@@ -584,7 +584,7 @@ func (m *Variant) Int() int64 {
 
 // Uint returns the uint value if the type is one of the uint types.
 func (m *Variant) Uint() uint64 {
-	if m.ArrayLength() > 0 {
+	if m.Has(VariantArrayValues) {
 		return 0
 	}
 
